@@ -107,6 +107,9 @@ func (e *Exec) intrinsic(th *Thread, fn *ssa.Function, args []Value) (Value, boo
 	for _, p := range noopPkgs {
 		if strings.HasPrefix(pp, p) {
 			e.stubs["noop:"+p]++
+			if e.opts.LogEnabled && p == "github.com/rs/zerolog" && fn.Name() == "Enabled" && fn.Signature.Recv() != nil {
+				return e.ctx.Bool(true), true
+			}
 			return e.noopResult(fn, args), true
 		}
 	}
